@@ -39,4 +39,87 @@ for (tt, ts, xt, xs) in cases:
     err = abs(v - ref) / np.sqrt(dt * ds)
     worst = max(worst, err)
     print('%s %s %s %s  oracle=%.15e mp=%.15e  err/sqrt(DD)=%.2e  (%.0f ms / %.0f s)' % (tt, ts, xt, xs, v, ref, err, 1e3 * (t1 - t0), time.time() - t1), flush=True)
-print('WORST', worst)
+print("WORST straight", worst)
+
+# ---- circle (curved geometry): chord distance 2 sin(|x-y|/2) -------------------------------------------------------
+import mpmath as mp
+mp.mp.dps = 25
+
+
+def circ(x):
+    x = np.asarray(x, dtype=float)
+    return np.vstack([np.cos(x), np.sin(x)])
+
+
+def mp_entry_circle(a, b, c, d, x0, x1, y0, y1):
+    def Kmp(z, rho):
+        if z <= 0:
+            return mp.mpf(0)
+        if rho == 0:
+            return -z / (4 * mp.pi)
+        u = rho / z
+        return ((rho + z) * mp.e1(u) - z * mp.exp(-u)) / (4 * mp.pi)
+
+    def f(x, y):
+        rho = (2 * mp.sin((x - y) / 2))**2 / 4
+        return Kmp(b - c, rho) - Kmp(a - c, rho) - Kmp(b - d, rho) + Kmp(a - d, rho)
+
+    bx = sorted(set([x0, x1] + [p for p in (y0, y1) if x0 < p < x1]))
+    tot = mp.mpf(0)
+    for xa, xb in zip(bx, bx[1:]):
+        def inner(x):
+            by = sorted(set([y0, y1] + ([x] if y0 < x < y1 else [])))
+            return mp.quad(lambda y: f(x, y), by)
+        tot += mp.quad(inner, [xa, xb])
+    return tot
+
+
+P = np.pi
+ccases = [((0, 1), (0, 1), (0, P / 2), (0, P / 2)), ((0, 1), (0, .5), (0, P / 2), (P / 2, P)), ((0, 1), (0, 1), (0, P / 4), (P / 2, P)),
+          ((.5, 1), (0, .5), (0, P / 2), (P / 4, P / 2)), ((0, 1 / 8), (0, 1 / 8), (0, P / 4), (P / 4, P / 2))]
+worstc = 0
+for (tt, ts, xt, xs) in ccases:
+    v = O.entry(tt, ts, xt, xs, circ, circ, 2 * P, True)
+    dt = O.entry(tt, tt, xt, xt, circ, circ, 2 * P, True)
+    ds = O.entry(ts, ts, xs, xs, circ, circ, 2 * P, True)
+    ref = float(mp_entry_circle(tt[0], tt[1], ts[0], ts[1], xt[0], xt[1], xs[0], xs[1]))
+    err = abs(v - ref) / np.sqrt(dt * ds)
+    worstc = max(worstc, err)
+    print('circle %s %s %s %s oracle=%.15e mp=%.15e err/sqrt(DD)=%.2e' % (tt, ts, xt, xs, v, ref, err), flush=True)
+# seam-touching pair through the closing point: compare with the rotated interior pair (rotation invariance of the integral)
+v1 = O.entry((0, 1), (0, 1), (0, P / 4), (7 * P / 4, 2 * P), circ, circ, 2 * P, True)
+v2 = O.entry((0, 1), (0, 1), (P / 4, P / 2), (0, P / 4), circ, circ, 2 * P, True)
+print('circle seam pair vs rotated interior pair: %.3e' % (abs(v1 - v2) / v2))
+print('WORST circle', worstc)
+
+# ---- pointwise oracle against mpmath -----------------------------------------------------------------------------
+def mp_pointwise(t, c, d, y0, y1, xp, curved):
+    def H(tau, rho):
+        if tau <= 0:
+            return mp.mpf(0)
+        return mp.e1(rho / tau) / (4 * mp.pi)
+
+    def f(y):
+        if curved:
+            q = (mp.cos(y), mp.sin(y))
+        else:
+            q = (y, mp.mpf(0))
+        rho = ((xp[0] - q[0])**2 + (xp[1] - q[1])**2) / 4
+        return H(t - c, rho) - H(t - d, rho)
+    return mp.quad(f, [y0, y1])
+
+
+worstp = 0
+for (t, c, d, y0, y1, xh, curved) in [(0.5, 0, 1, 0, 1, 0.3, False), (1.5, 0, 1, 0, 1, 1.0, False), (0.5, 0, 1, 0, 1, 1.2, False),
+                                      (0.7, 0, 1, 0, P / 2, 0.4, True), (0.7, 0, 1, 0, P / 2, P / 2 + 0.01, True), (1.3, 0, 1, 0, P / 2, 3.0, True)]:
+    g = circ if curved else line
+    xp = g(np.array([xh]))[:, 0]
+    v = O.pointwise(t, (c, d), (y0, y1), g, xp, xhat=xh if y0 < xh < y1 else None)
+    if y0 < xh < y1:
+        ref = float(mp_pointwise(t, c, d, y0, xh, (mp.mpf(xp[0]), mp.mpf(xp[1])), curved) + mp_pointwise(t, c, d, xh, y1, (mp.mpf(xp[0]), mp.mpf(xp[1])), curved))
+    else:
+        ref = float(mp_pointwise(t, c, d, y0, y1, (mp.mpf(xp[0]), mp.mpf(xp[1])), curved))
+    e = abs(v - ref) / abs(ref)
+    worstp = max(worstp, e)
+    print('pointwise t=%s elem t(%s,%s) x(%.3f,%.3f) x_hat=%.3f curved=%s oracle=%.15e mp=%.15e rel=%.2e' % (t, c, d, y0, y1, xh, curved, v, ref, e), flush=True)
+print('WORST pointwise', worstp)
